@@ -19,19 +19,25 @@ pub fn base_spec(workers: u32, rule: &str, assumptions: &[&str], timeout_s: u64)
 
 pub mod common;
 pub mod c01;
+pub mod c02;
+pub mod c03;
 pub mod c04;
 pub mod c05;
+pub mod c09;
 pub mod c10;
 pub mod c14;
 pub mod c18;
 
-pub const ALL: &[&str] = &["C01", "C04", "C05", "C10", "C14", "C18"];
+pub const ALL: &[&str] = &["C01", "C02", "C03", "C04", "C05", "C09", "C10", "C14", "C18"];
 
 pub fn lookup(id: &str) -> Option<Prop> {
     match id {
         "C01" => Some(Prop { id: "C01", spec: c01::spec, run: c01::run, replay: c01::replay }),
+        "C02" => Some(Prop { id: "C02", spec: c02::spec, run: c02::run, replay: c02::replay }),
+        "C03" => Some(Prop { id: "C03", spec: c03::spec, run: c03::run, replay: c03::replay }),
         "C04" => Some(Prop { id: "C04", spec: c04::spec, run: c04::run, replay: c04::replay }),
         "C05" => Some(Prop { id: "C05", spec: c05::spec, run: c05::run, replay: c05::replay }),
+        "C09" => Some(Prop { id: "C09", spec: c09::spec, run: c09::run, replay: c09::replay }),
         "C10" => Some(Prop { id: "C10", spec: c10::spec, run: c10::run, replay: c10::replay }),
         "C14" => Some(Prop { id: "C14", spec: c14::spec, run: c14::run, replay: c14::replay }),
         "C18" => Some(Prop { id: "C18", spec: c18::spec, run: c18::run, replay: c18::replay }),
